@@ -15,6 +15,13 @@ fixed("C08", "d3dd723", "per-trace collector entry retained after the trace ende
 fixed("C02", "d4c4f6a", "lost local-span record: Span::enter_with_parents with only no-op parents built a live span with an empty parent set; set as local parent it opened a scope that swallowed the local spans recorded in it (generated program: noop, child<[noop,noop]>, root, scope(root)(scope(child)(l0)))")
 fixed("C04", "816276e", "event/property lost in the default configuration: cancel() removed the trace's parked attachments although cancelable was not set (generated programs C04-seq: root, add_event(root), cancel(root), finish(root))")
 
+fixed("C09", "865fae9", "span record of a cancelled trace delivered after a queue-full episode: cancel and finish were parked in the overflow list and replayed last-in-first-out, and a collector cycle fell between the replayed commit and the replayed cancel (C09-ring: fill(leave=0), cancel(root), finish(root), cancelable configuration, preemption bound 2)")
+fixed("C13", "70ebd79", "local spans recorded in the final poll of fut.in_span(root) missing from the trace: the adapter finished (committed) the root while the local-parent guard of that poll was still alive, so the poll's local spans were submitted after the commit (C13-root programs, cancelable configuration, collector cycle between the two)")
+fixed("C14", "70ebd79", "same for the stream adapter at Ready(None) and the sink adapter at poll_close (C14-stream / C14-sink programs, cancelable configuration)")
+fixed("C07", "4eb6543", "BorrowMutError panic: LocalSpan::with_properties / LocalSpan::add_properties ran the user's closure while the thread's span stack was mutably borrowed; any tracing call inside the closure panicked (C07-reentrant programs)")
+fixed("C07", "ab07ac6", "debug assertion `token.is_some()` failed in LocalParentGuard::drop for a scope opened beyond the 4096-scope limit (C07-scopes programs)")
+fixed("C07", "7d7d7a3", "panic 'cannot access a Thread Local Storage value during or after destruction' from Span::root / SpanContext::random / TraceId::random / SpanId::random / the first local span of a thread when called from a thread-local destructor that runs after rand's thread-local generator was destroyed (C07-teardown programs)")
+
 # K1: attachments to a span that has several parents in ONE trace
 K1 = ("attachment to a span created with several parents that belong to the same trace: the span is delivered once per parent, "
       "but all copies of the attachment are mounted on the first copy and none on the others (mount_danglings removes the entry "
